@@ -28,6 +28,12 @@ mod c15;
 mod c16;
 mod c17;
 mod c18;
+mod c18_arc;
+mod c18_fmt;
+mod c18_mat;
+mod c18_mdl;
+mod c18_pbc;
+mod c18_skel;
 
 use std::io::{BufRead, BufWriter, Write};
 
